@@ -101,15 +101,16 @@ def check_cases(cases: list[dict], rep: Report, known: dict) -> None:
             rep.violation(f"as_expression() is not a well-formed expression: {w}", info)
         vs = common.names_of(e)
         stxt = wire.expr(se)
+        dy = common.constants_all_dyadic(se)        # else the simplifier's constant folding has rounded already
         for j, ptxt in enumerate(c["points"]):
             p = wire.build_point(ptxt)
             val = call(se.at, p)
-            sem.append((dict(c, p=ptxt, order=1, sexpr=repr(se)[:600]), f"fwd {x} {c['e']} {ptxt}", f"eval {stxt} {ptxt}"))
+            sem.append((dict(c, p=ptxt, order=1, sexpr=repr(se)[:600], dyadic=dy), f"fwd {x} {c['e']} {ptxt}", f"eval {stxt} {ptxt}"))
             ncs.append(NumCase(None, f"eval {stxt} {ptxt}", val, dict(c, p=ptxt, order=1, impl=repr(val))))
             if j == 0 and vs:
                 y = vs[(len(ptxt)) % len(vs)]
                 val2 = call(lambda: sm.Partial(se, y).at(p))
-                sem.append((dict(c, p=ptxt, order=2, y=y, sexpr=repr(se)[:600]), f"fwd2 {x} {y} {c['e']} {ptxt}", f"fwd {y} {stxt} {ptxt}"))
+                sem.append((dict(c, p=ptxt, order=2, y=y, sexpr=repr(se)[:600], dyadic=dy), f"fwd2 {x} {y} {c['e']} {ptxt}", f"fwd {y} {stxt} {ptxt}"))
                 ncs.append(NumCase(None, f"fwd {y} {stxt} {ptxt}", val2, dict(c, p=ptxt, order=2, y=y, impl=repr(val2))))
     raw_symbolic_tie(cases, rep)
     judge_expr(ecs, rep)
@@ -154,7 +155,8 @@ def check_cases(cases: list[dict], rep: Report, known: dict) -> None:
         rep.count("points", f"in-domain-order{info['order']}")
         info = dict(info, truth=sb[jf], output=sb[of])
         ok = a_out[0] == "ok" and answers_agree(a_in, a_out)
-        if ok and q_in[0] == "ok" and q_out[0] == "ok" and q_in[1].rep and q_out[1].rep and q_in[1].q != q_out[1].q:
+        if ok and info.get("dyadic", True) and q_in[0] == "ok" and q_out[0] == "ok" and q_in[1].rep and q_out[1].rep \
+                and q_in[1].q != q_out[1].q:
             ok = False
             info["exact"] = f"{q_in[1].q} vs {q_out[1].q}"
         if ok:
